@@ -174,15 +174,19 @@ func runNetConn(rep *Report, nc ncCase, tl *timerLog, short *int64) {
 					rep.miss("netconn-wrong-type-accepted", nc, fmt.Sprintf("%s: n=%d err=%v", where, n, rerr))
 					return
 				}
-				time.Sleep(5 * time.Millisecond)
-				gotMu.Lock()
 				ok := false
-				for _, f := range got {
-					if f.Op == ws.OpClose && len(f.Payload) >= 2 && int(f.Payload[0])<<8|int(f.Payload[1]) == 1003 {
-						ok = true
+				for try := 0; try < 400 && !ok; try++ { // the frame is written before Read returns; the peer goroutine may lag
+					gotMu.Lock()
+					for _, f := range got {
+						if f.Op == ws.OpClose && len(f.Payload) >= 2 && int(f.Payload[0])<<8|int(f.Payload[1]) == 1003 {
+							ok = true
+						}
+					}
+					gotMu.Unlock()
+					if !ok {
+						time.Sleep(5 * time.Millisecond)
 					}
 				}
-				gotMu.Unlock()
 				if !ok {
 					rep.miss("netconn-wrong-type-without-1003", nc, where)
 					return
@@ -220,12 +224,10 @@ func runNetConn(rep *Report, nc ncCase, tl *timerLog, short *int64) {
 				which, name = conn.SetWriteDeadline, "NcTimerIdle1"
 			}
 			which(time.Now().Add(-time.Second))
-			if !tl.wait(id, name, 2*time.Second) {
-				if tl.wait(id, "NcTimerActive"+name[len(name)-1:], 0) {
-					rep.miss("netconn-idle-deadline-treated-as-active", nc, where)
-				} else {
-					rep.miss("netconn-deadline-timer-did-not-fire", nc, where)
-				}
+			// how the adapter notices the passed deadline is its business (a timer callback logs NcTimerIdle); what is
+			// judged is only that it is NOT handled as an active call, and - by the following steps - that calls fail
+			if !tl.wait(id, name, 100*time.Millisecond) && tl.wait(id, "NcTimerActive"+name[len(name)-1:], 0) {
+				rep.miss("netconn-idle-deadline-treated-as-active", nc, where)
 				return
 			}
 		case "rdlZero":
@@ -234,12 +236,18 @@ func runNetConn(rep *Report, nc ncCase, tl *timerLog, short *int64) {
 			conn.SetReadDeadline(time.Now().Add(time.Hour))
 		case "wdlZero":
 			conn.SetWriteDeadline(time.Time{})
-		case "readBlockedDeadline":
-			conn.SetReadDeadline(time.Now().Add(30 * time.Millisecond))
+		case "readBlockedDeadline", "readBlockedSetPast":
+			if st.Op == "readBlockedDeadline" {
+				conn.SetReadDeadline(time.Now().Add(30 * time.Millisecond))
+			}
 			buf := make([]byte, 16)
 			done := make(chan struct{})
 			var rerr error
 			go func() { _, rerr = conn.Read(buf); close(done) }()
+			if st.Op == "readBlockedSetPast" {
+				time.Sleep(20 * time.Millisecond) // the Read is blocked by now: no data is pending
+				conn.SetReadDeadline(time.Now().Add(-time.Millisecond))
+			}
 			select {
 			case <-done:
 			case <-time.After(5 * time.Second):
@@ -250,25 +258,29 @@ func runNetConn(rep *Report, nc ncCase, tl *timerLog, short *int64) {
 				rep.miss("netconn-active-deadline-call-did-not-fail", nc, fmt.Sprintf("%s: %v", where, rerr))
 				return
 			}
-			if !tl.wait(id, "NcTimerActive0", time.Second) {
-				if tl.wait(id, "NcTimerIdle0", 0) {
-					atomic.AddInt64(short, 1)
-					return
-				}
-				rep.miss("netconn-active-deadline-not-taken-as-active", nc, where)
+			// what is judged is the effect: the call failed (above) and the connection ends up closed (below);
+			// the hook only tells a lost race (timer before the call started = idle handling) from a defect
+			if !tl.wait(id, "NcTimerActive0", 100*time.Millisecond) && tl.wait(id, "NcTimerIdle0", 0) {
+				atomic.AddInt64(short, 1)
 				return
 			}
 			if !tl.wait(id, "closed", 2*time.Second) {
 				rep.miss("netconn-active-deadline-left-connection-open", nc, where)
 				return
 			}
-		case "writeBlockedDeadline":
+		case "writeBlockedDeadline", "writeBlockedSetPast":
 			atomic.StoreInt32(&pauseDrain, 1)
 			raw.In.Cap = 1
-			conn.SetWriteDeadline(time.Now().Add(30 * time.Millisecond))
+			if st.Op == "writeBlockedDeadline" {
+				conn.SetWriteDeadline(time.Now().Add(30 * time.Millisecond))
+			}
 			done := make(chan struct{})
 			var werr error
 			go func() { _, werr = conn.Write(make([]byte, 70000)); close(done) }()
+			if st.Op == "writeBlockedSetPast" {
+				time.Sleep(20 * time.Millisecond)
+				conn.SetWriteDeadline(time.Now().Add(-time.Millisecond))
+			}
 			select {
 			case <-done:
 			case <-time.After(5 * time.Second):
@@ -279,12 +291,10 @@ func runNetConn(rep *Report, nc ncCase, tl *timerLog, short *int64) {
 				rep.miss("netconn-active-deadline-call-did-not-fail", nc, where)
 				return
 			}
-			if !tl.wait(id, "NcTimerActive1", time.Second) {
-				if tl.wait(id, "NcTimerIdle1", 0) {
-					atomic.AddInt64(short, 1) // the timer won the race against the call (scheduling): behaviour not reproduced
-					return
-				}
-				rep.miss("netconn-active-deadline-not-taken-as-active", nc, where)
+			// what is judged is the effect: the call failed (above) and the connection ends up closed (below);
+			// the hook only tells a lost race (timer before the call started = idle handling) from a defect
+			if !tl.wait(id, "NcTimerActive1", 100*time.Millisecond) && tl.wait(id, "NcTimerIdle1", 0) {
+				atomic.AddInt64(short, 1)
 				return
 			}
 			if !tl.wait(id, "closed", 2*time.Second) {
